@@ -2,7 +2,7 @@ package main
 
 // Phase "live": live endpoints of both stacks.
 //
-//	fn=live_flood stack=S victim=server|client kind=hs|warn|empty|ccs n=<records> size=<bytes> [via=read|readfrom]
+//	fn=live_flood stack=S victim=server|client kind=hs|warn|empty|mix|ccs n=<records> size=<bytes> [suite=..]
 //	    a real handshake, then the OTHER side (a peer that completed the handshake) sends n
 //	    authenticated records of the kind (hs: handshake records of `size` bytes; warn: warning
 //	    alerts; empty: empty application-data records; ccs: change_cipher_spec) followed by one
@@ -14,7 +14,7 @@ package main
 //	fn=live_raw stack=S victim=server|client seed=<n> len=<bytes> shape=<kind>
 //	    a fresh endpoint fed with arbitrary bytes as the first thing it ever receives.
 //
-// observed: out=ok|err|panic stalled=0|1 hand=<max> raw=<max> pend=<max buffers> pendb=<max bytes>
+// observed: out=ok|err|panic stalled=0|1 hand=<max> raw=<max> pend=<max buffers> pendb=<max bytes> [stackd=<bytes>]
 //
 //	hs=<readHandshake budget: messages the victim may have read> [err=<text>] [panic=<text>]
 //
@@ -25,6 +25,7 @@ import (
 	"fmt"
 	"io"
 	"net"
+	"runtime"
 	"sync/atomic"
 	"strconv"
 	"strings"
@@ -48,12 +49,16 @@ type liveObs struct {
 	pend    int
 	pendb   int
 	hs      int
+	stackd  int // growth of runtime.MemStats.StackInuse during the call (floods only)
 	err     string
 	panicv  string
 }
 
 func (o liveObs) String() string {
 	s := fmt.Sprintf("out=%s stalled=%s hand=%d raw=%d pend=%d pendb=%d hs=%d", o.out, b01(o.stalled), o.hand, o.raw, o.pend, o.pendb, o.hs)
+	if o.stackd > 0 {
+		s += " stackd=" + strconv.Itoa(o.stackd)
+	}
 	if o.err != "" {
 		s += " err=" + canonErr(o.err)
 	}
@@ -328,6 +333,12 @@ func execFlood(desc string) string {
 			err = att.writeRecord(23, nil)
 		case "ccs":
 			err = att.writeRecord(20, []byte{1})
+		case "mix": // empty application data and warning alerts alternating
+			if i%2 == 0 {
+				err = att.writeRecord(23, nil)
+			} else {
+				err = att.writeRecord(21, []byte{1, 90})
+			}
 		}
 		if err != nil {
 			return "out=setup err=attacker_write:" + canonErr(err.Error())
@@ -335,6 +346,30 @@ func execFlood(desc string) string {
 	}
 	att.writeRecord(23, []byte("x"))
 	sm := startSampler(vic, &o)
+	// goroutine stack in use, sampled while the victim is inside Read (a recursion per ignored
+	// record shows as growth proportional to the flood)
+	var ms runtime.MemStats
+	runtime.GC()
+	runtime.ReadMemStats(&ms)
+	stack0 := ms.StackInuse
+	stackMax := stack0
+	stopStack := make(chan struct{})
+	stackDone := make(chan struct{})
+	go func() {
+		defer close(stackDone)
+		var m runtime.MemStats
+		for {
+			runtime.ReadMemStats(&m)
+			if m.StackInuse > stackMax {
+				stackMax = m.StackInuse
+			}
+			select {
+			case <-stopStack:
+				return
+			case <-time.After(time.Millisecond):
+			}
+		}
+	}()
 	buf := make([]byte, 16)
 	got := 0
 	err, p, stalled := guarded(func() error {
@@ -342,6 +377,12 @@ func execFlood(desc string) string {
 		got = m
 		return e
 	}, closeAll, watchdog)
+	close(stopStack)
+	<-stackDone
+	o.stackd = int(stackMax - stack0)
+	if o.stackd < 1<<20 { // below one megabyte: noise of the runtime, not reported
+		o.stackd = 0
+	}
 	sm.finish(vic)
 	o.stalled, o.panicv = stalled, p
 	o.hs = 1
@@ -787,6 +828,22 @@ func genLive(o hx.Opts, emit func(string)) {
 	// F43: a client whose own signing certificate has an RSA / Ed25519 key, asked for a certificate
 	emit("fn=live_cert stack=tlcp victim=client suite=ecc ssig=sm2 senc=sm2 csig=rsa cenc=sm2 auth=1")
 	emit("fn=live_cert stack=dtlcp victim=client suite=ecc ssig=sm2 senc=sm2 csig=ed cenc=sm2 auth=1")
+	// non-advancing records after the handshake: 16 in a row are tolerated, the 17th must end the
+	// connection ("too many ignored records"), a long flood must neither deliver what follows it
+	// nor make the stack grow
+	for _, v := range []string{"server", "client"} {
+		for _, k := range []string{"empty", "warn", "mix"} {
+			for _, n := range []int{16, 17, 1000} {
+				emit(fmt.Sprintf("fn=live_flood stack=tlcp victim=%s kind=%s n=%d size=0", v, k, n))
+			}
+		}
+		emit("fn=live_flood stack=tlcp victim=" + v + " kind=empty n=20000 size=0")
+		emit("fn=live_flood stack=tlcp victim=" + v + " kind=empty n=1000 size=0 suite=ecccbc")
+		for _, n := range []int{16, 17, 1000} {
+			emit(fmt.Sprintf("fn=live_flood stack=dtlcp victim=%s kind=warn n=%d size=0", v, n))
+		}
+		emit("fn=live_flood stack=dtlcp victim=" + v + " kind=empty n=5000 size=0")
+	}
 	for _, st := range []string{"tlcp", "dtlcp"} {
 		for _, v := range []string{"server", "client"} {
 			for _, k := range []string{"warn", "empty", "ccs"} {
